@@ -1,6 +1,7 @@
 (* Lemmas for property C19 about Model/H5Read.v. *)
 From GV Require Import Prelude.Base Model.H5Read.
 From Coq Require Import String.
+From GVgen Require Import Tables_Reader.
 Local Open Scope list_scope.
 
 (* ------------------------------------------------------------------ equality tests *)
@@ -281,7 +282,7 @@ Section Core.
         - exact Hr0. }
       destruct (H_list t Hs) as [keep [Hl Hdrop]].
       (* what the children contribute when the entity keeps its identifier *)
-      assert (Hsame : forall r, r_uid r = U (et_uid t) -> is_container (et_kind t) = true ->
+      assert (Hsame : forall r, r_uid r = U (et_uid t) ->
                  match (do kids <- fetch_children G0 f' (r_uid r) (et_kind t);
                         match seq_load (fun reg' c' => load_ent n G0 f' reg' c' (Some (r_uid r))) kids (r_uid r :: reg) with
                         | Err e => Err e
@@ -294,7 +295,7 @@ Section Core.
                      /\ (forall v, In (U v) reg' -> In (U v) reg \/ In v (uids t))
                      /\ exists sub, recs = r :: sub
                  end).
-      { intros r Er _. rewrite Er. rewrite Hl. simpl.
+      { intros r Er. rewrite Er. rewrite Hl. simpl.
         pose proof (kids_ok n t keep (U (et_uid t)) Hdrop Hkids (et_kids t) (incl_refl _) Hndk (U (et_uid t) :: reg)) as K.
         assert (Hr' : forall v, In v (flat_map uids (et_kids t)) -> ~ In (U v) (U (et_uid t) :: reg)).
         { intros v Hv [E|Hin].
@@ -313,7 +314,7 @@ Section Core.
       destruct (H_local t Hs p) as [Hv|[[e [Hv He]]|[[Hv HA]|[[r [Hv [Er HinA]]]|[r [a [Hv [Er HA]]]]]]]]; rewrite Hv; simpl.
       + (* view unchanged *)
         destruct (is_container (et_kind t)) eqn:Ec.
-        * specialize (Hsame (rec_of s false t p) eq_refl Ec). simpl in Hsame.
+        * specialize (Hsame (rec_of s false t p) eq_refl). simpl in Hsame.
           match goal with |- sub_ok _ _ _ ?X => destruct X as [[recs reg']|e] end; [|exact Hsame].
           destruct Hsame as [Hf [Hr [sub Esub]]]. split; [|exact Hr].
           intros u Hu. rewrite flat_recs_unfold. subst recs. simpl.
@@ -332,7 +333,7 @@ Section Core.
         * intros v H. left. exact H.
       + (* altered, same identifier *)
         destruct (is_container (et_kind t)) eqn:Ec.
-        * specialize (Hsame r Er Ec).
+        * specialize (Hsame r Er).
           match goal with |- sub_ok _ _ _ ?X => destruct X as [[recs reg']|e] end; [|exact Hsame].
           destruct Hsame as [Hf [Hr [sub Esub]]]. split; [|exact Hr].
           intros u Hu. rewrite flat_recs_unfold.
@@ -359,3 +360,288 @@ Section Core.
           -- intros v [E|H]; [rewrite Er in E; discriminate | left; exact H].
   Qed.
 End Core.
+
+(* ------------------------------------------------------------------ booleans to propositions *)
+Lemma memN_In x l : memN x l = true <-> In x l.
+Proof.
+  unfold memN. rewrite existsb_exists. split.
+  - intros [y [Hy E]]. apply N.eqb_eq in E. subst. exact Hy.
+  - intros H. exists x. split; [exact H | apply N.eqb_refl].
+Qed.
+Lemma nodupN_NoDup l : nodupN l = true -> NoDup l.
+Proof.
+  induction l as [|x r IH]; simpl; intros H; [constructor|].
+  apply andb_true_iff in H. destruct H as [H1 H2]. constructor; [|apply IH; exact H2].
+  intros Hin. apply memN_In in Hin. rewrite Hin in H1. discriminate.
+Qed.
+Lemma NoDup_map_inj {X Y} (g : X -> Y) l x y : NoDup (map g l) -> In x l -> In y l -> g x = g y -> x = y.
+Proof.
+  induction l as [|z r IH]; simpl; intros Hnd Hx Hy E; [contradiction|]. inversion Hnd; subst.
+  destruct Hx as [Hx|Hx], Hy as [Hy|Hy]; subst.
+  - reflexivity.
+  - exfalso. apply H1. rewrite E. apply in_map. exact Hy.
+  - exfalso. apply H1. rewrite <- E. apply in_map. exact Hx.
+  - apply IH; assumption.
+Qed.
+
+Lemma insertN_In x n l : In x (insertN n l) <-> x = n \/ In x l.
+Proof.
+  induction l as [|m r IH]; simpl; [intuition congruence|]. destruct (N.leb n m); simpl; [intuition congruence|]. rewrite IH. intuition congruence.
+Qed.
+Lemma sortN_In x l : In x (sortN l) <-> In x l.
+Proof.
+  unfold sortN. induction l as [|m r IH]; simpl; [tauto|]. rewrite insertN_In, IH. split; intros [H|H]; auto.
+Qed.
+
+(* ------------------------------------------------------------------ facts from wf *)
+Section Layout.
+  Variable s : fspec.
+  Hypothesis Hwf : wf s.
+  Let root := fs_root s.
+
+  Lemma wf_nodup : NoDup (uids root).
+  Proof.
+    unfold wf, wfb in Hwf. apply andb_true_iff in Hwf. destruct Hwf as [H _]. apply andb_true_iff in H. destruct H as [H _].
+    apply nodupN_NoDup. exact H.
+  Qed.
+  Lemma wf_root_kind : et_kind root = KGroup.
+  Proof.
+    unfold wf, wfb in Hwf. apply andb_true_iff in Hwf. destruct Hwf as [H _]. apply andb_true_iff in H. destruct H as [_ H].
+    apply ekind_eqb_eq. exact H.
+  Qed.
+  Lemma wf_ent t : In t (subtrees root) -> ent_ok s t = true.
+  Proof.
+    unfold wf, wfb in Hwf. apply andb_true_iff in Hwf. destruct Hwf as [_ H]. rewrite forallb_forall in H. apply H.
+  Qed.
+
+  Lemma find_ent_in t : In t (subtrees root) -> find_ent s (et_kind t) (et_uid t) = Some t.
+  Proof.
+    intros Hin. unfold find_ent. fold root.
+    destruct (find _ (subtrees root)) as [t'|] eqn:E.
+    - apply find_some in E. destruct E as [Hin' E]. apply andb_true_iff in E. destruct E as [_ E]. apply N.eqb_eq in E.
+      f_equal. apply (NoDup_map_inj et_uid (subtrees root)); [exact wf_nodup | exact Hin' | exact Hin | exact E].
+    - exfalso. pose proof (find_none _ _ E t Hin) as Hn. simpl in Hn. rewrite ekind_eqb_refl, N.eqb_refl in Hn. discriminate.
+  Qed.
+  Lemma find_ent_some k u t : find_ent s k u = Some t -> In t (subtrees root) /\ et_kind t = k /\ et_uid t = u.
+  Proof.
+    unfold find_ent. fold root. intros E. apply find_some in E. destruct E as [Hin E]. apply andb_true_iff in E. destruct E as [E1 E2].
+    apply ekind_eqb_eq in E1. apply N.eqb_eq in E2. auto.
+  Qed.
+
+  Lemma in_ents_of_kind t : In t (subtrees root) -> In (et_uid t) (ents_of_kind s (et_kind t)).
+  Proof.
+    intros H. unfold ents_of_kind. apply sortN_In. apply in_map_iff. exists t. split; [reflexivity|].
+    apply filter_In. split; [exact H | apply ekind_eqb_refl].
+  Qed.
+
+  Lemma lookup_uid_map {V} (g : N -> V) u l :
+    lookup (KU u) (map (fun v => (KU v, g v)) l) = if memN u l then Some (g u) else None.
+  Proof.
+    induction l as [|v r IH]; simpl; [reflexivity|]. unfold memN in *. simpl.
+    destruct (N.eqb u v) eqn:E; simpl.
+    - apply N.eqb_eq in E. subst. reflexivity.
+    - exact IH.
+  Qed.
+End Layout.
+
+(* ------------------------------------------------------------------ nodes of a laid-out file *)
+Section LayoutNodes.
+  Variable s : fspec.
+
+  Lemma L_flat k : layout_at s [flat_key k] = Some (group_node (map (fun u => (KU u, ent_addr k u)) (ents_of_kind s k))).
+  Proof. destruct k; reflexivity. Qed.
+  Lemma L_ent k u : layout_at s (ent_addr k u) = option_map ent_node (find_ent s k u).
+  Proof. destruct k; reflexivity. Qed.
+  Lemma L_type k ty : layout_at s (type_addr k ty) = option_map (type_node k ty) (lookupN ty (fs_types s k)).
+  Proof. reflexivity. Qed.
+  Lemma L_under k u k2 :
+    layout_at s (ent_addr k u ++ [k2]) = match find_ent s k u with Some t => under_entity t k2 | None => None end.
+  Proof. destruct k; destruct k2; reflexivity. Qed.
+  Lemma L_pg k u pk :
+    layout_at s (ent_addr k u ++ [KPGs; pk]) =
+    match find_ent s k u with
+    | Some t => match et_pgs t with
+                | Some pgs => option_map (fun pa : amap => {| n_attrs := pa; n_data := None; n_links := [] |}) (lookup pk pgs)
+                | None => None
+                end
+    | None => None
+    end.
+  Proof. destruct k; reflexivity. Qed.
+End LayoutNodes.
+
+(* ------------------------------------------------------------------ a file that is the layout of [s] with item [x] deleted *)
+Definition link_hits (x : item) (k : key) : bool := match x with ILink _ k' => key_eqb k' k | IAttr _ _ => false end.
+Definition attr_hits (x : item) (k : key) : bool := match x with IAttr _ k' => key_eqb k' k | ILink _ _ => false end.
+
+Section Del.
+  Variable s : fspec.
+  Variable x : item.
+  Variable f' : h5.
+  Hypothesis Htop : top f' = [].
+  Hypothesis Hnode : forall b, node_at f' b =
+     if addr_eqb (item_addr x) b then option_map (del_in_node x) (layout_at s b) else layout_at s b.
+
+  Let a := item_addr x.
+
+  Lemma del_links n : n_links (del_in_node x n) = match x with ILink _ k => remove_key k (n_links n) | IAttr _ _ => n_links n end.
+  Proof. destruct x; reflexivity. Qed.
+  Lemma del_attrs n : n_attrs (del_in_node x n) = match x with IAttr _ k => remove_key k (n_attrs n) | ILink _ _ => n_attrs n end.
+  Proof. destruct x; reflexivity. Qed.
+  Lemma del_data n : n_data (del_in_node x n) = n_data n.
+  Proof. destruct x; reflexivity. Qed.
+
+  Lemma D_data b : option_map n_data (node_at f' b) = option_map n_data (layout_at s b).
+  Proof. rewrite Hnode. destruct (addr_eqb (item_addr x) b); [|reflexivity]. destruct (layout_at s b); simpl; [rewrite del_data|]; reflexivity. Qed.
+
+  Lemma D_getlink b k :
+    get_link f' b k = match layout_at s b with
+                      | None => None
+                      | Some n => if addr_eqb a b && link_hits x k then None else lookup k (n_links n)
+                      end.
+  Proof.
+    unfold get_link. rewrite Hnode. fold a. destruct (addr_eqb a b) eqn:E; simpl; [|destruct (layout_at s b); reflexivity].
+    destruct (layout_at s b) as [n|]; simpl; [|reflexivity]. rewrite del_links. unfold link_hits. destruct x as [a0 k0|a0 k0]; [reflexivity|].
+    destruct (key_eqb k0 k) eqn:Ek.
+    - apply key_eqb_eq in Ek. subst. apply lookup_remove_same.
+    - apply lookup_remove_other. apply key_eqb_neq. exact Ek.
+  Qed.
+
+  Lemma D_node_other b : addr_eqb a b = false -> node_at f' b = layout_at s b.
+  Proof. intros E. rewrite Hnode. fold a. rewrite E. reflexivity. Qed.
+  Lemma D_node_same b : addr_eqb a b = true -> node_at f' b = option_map (del_in_node x) (layout_at s b).
+  Proof. intros E. rewrite Hnode. fold a. rewrite E. reflexivity. Qed.
+End Del.
+
+(* ------------------------------------------------------------------ generic facts about the reader (any file) *)
+Lemma glookup_err {X} g (o : option X) e : glookup g o = Err e -> e = KeyError.
+Proof. unfold glookup. destruct o; [discriminate|]. destruct (absorbs g); [discriminate|]. intros H. inversion H. reflexivity. Qed.
+Lemma glookup_ok_absorb {X} g (o : option X) : absorbs g = true -> glookup g o = Ok o.
+Proof. intros H. unfold glookup. destruct o; [reflexivity|]. rewrite H. reflexivity. Qed.
+
+Lemma fetch_type_attributes_G0 f ta tn :
+  fetch_type_attributes G0 f ta tn =
+  Ok {| tv_attrs := n_attrs tn;
+        tv_cmap := option_map (fun p : addr * node => (n_attrs (snd p), n_data (snd p))) (sub f ta KCmap);
+        tv_vmap := option_map (fun p : addr * node => n_data (snd p)) (sub f ta KVmap) |}.
+Proof.
+  unfold fetch_type_attributes. simpl. rewrite !glookup_ok_absorb by reflexivity. simpl.
+  destruct (sub f ta KVmap) as [[va vn]|]; simpl; [|reflexivity]. reflexivity.
+Qed.
+
+Lemma fetch_property_groups_G0 f u :
+  fetch_property_groups G0 f u =
+  Ok (match (match sub f (top f) KObjects with
+             | Some (oa, _) => match sub_uid f oa u with Some (ea, _) => sub f ea KPGs | None => None end
+             | None => None
+             end) with
+      | Some (pa, pn) => pg_list f pa pn
+      | None => []
+      end).
+Proof. unfold fetch_property_groups. simpl. rewrite glookup_ok_absorb by reflexivity. reflexivity. Qed.
+
+Lemma create_entity_uid f g rk ea attrs tv pgs p r :
+  create_entity f g rk ea attrs tv pgs p = Ok (Some r) -> r_uid r = uid_of_attrs ea attrs.
+Proof.
+  unfold create_entity. destruct rk.
+  - intros H. inversion H. reflexivity.
+  - destruct (type_id tv); intros H; inversion H. reflexivity.
+  - destruct (type_id tv) as [[n|c|n]|]; try discriminate.
+    destruct (class_name_first c object_classes) as [b|]; try discriminate.
+    destruct (b || has_key KName attrs); intros H; inversion H. reflexivity.
+  - destruct tv as [v|]; try discriminate. destruct (has_key KPrim (tv_attrs v)); intros H; inversion H. reflexivity.
+Qed.
+Lemma create_entity_err f g rk ea attrs tv pgs p e :
+  create_entity f g rk ea attrs tv pgs p = Err e -> e <> OutOfFuel.
+Proof.
+  unfold create_entity. destruct rk.
+  - discriminate.
+  - destruct (type_id tv); intros H; inversion H. discriminate.
+  - destruct (type_id tv) as [[n|c|n]|]; try discriminate.
+    + destruct (class_name_first c object_classes) as [b|]; try discriminate.
+      destruct (b || has_key KName attrs); intros H; inversion H. discriminate.
+    + intros H; inversion H. discriminate.
+  - destruct tv as [v|]; try discriminate. destruct (has_key KPrim (tv_attrs v)); discriminate.
+Qed.
+
+(* fetch_attributes under the guards G0, in closed form *)
+Definition fa_tail (f : h5) (u : uid) (ea : addr) (en : node) : option (addr * amap * option tview * list (key * amap)) :=
+  Some (ea, n_attrs en,
+        match sub f ea KType with
+        | Some (ta, tn) => Some {| tv_attrs := n_attrs tn;
+                                   tv_cmap := option_map (fun p : addr * node => (n_attrs (snd p), n_data (snd p))) (sub f ta KCmap);
+                                   tv_vmap := option_map (fun p : addr * node => n_data (snd p)) (sub f ta KVmap) |}
+        | None => None
+        end,
+        match get_link f ea KPGs with
+        | Some _ => match (match sub f (top f) KObjects with
+                           | Some (oa, _) => match sub_uid f oa u with Some (ea', _) => sub f ea' KPGs | None => None end
+                           | None => None
+                           end) with
+                    | Some (pa, pn) => pg_list f pa pn
+                    | None => []
+                    end
+        | None => []
+        end).
+
+Lemma fetch_attributes_G0 f u k :
+  fetch_attributes G0 f u (Some k) =
+  match sub f (top f) (flat_key k) with
+  | None => Err KeyError
+  | Some (ca, _) => match sub_uid f ca u with
+                    | None => Ok None
+                    | Some (ea, en) => Ok (fa_tail f u ea en)
+                    end
+  end.
+Proof.
+  unfold fetch_attributes, fa_tail. simpl.
+  destruct (sub f (top f) (flat_key k)) as [[ca cn]|]; simpl; [|reflexivity].
+  rewrite glookup_ok_absorb by reflexivity. simpl.
+  destruct (sub_uid f ca u) as [[ea en]|]; simpl; [|reflexivity].
+  rewrite !glookup_ok_absorb by reflexivity. simpl.
+  destruct (sub f ea KType) as [[ta tn]|]; simpl.
+  - rewrite fetch_type_attributes_G0. simpl.
+    destruct (get_link f ea KPGs); simpl; [rewrite fetch_property_groups_G0|]; reflexivity.
+  - destruct (get_link f ea KPGs); simpl; [rewrite fetch_property_groups_G0|]; reflexivity.
+Qed.
+
+Lemma load_entity_G0 f u k p :
+  load_entity G0 f u (Some k) p =
+  match sub f (top f) (flat_key k) with
+  | None => Err KeyError
+  | Some (ca, _) => match sub_uid f ca u with
+                    | None => Ok None
+                    | Some (ea, en) =>
+                        match fa_tail f u ea en with
+                        | Some (ea', attrs, tv, pgs) => create_entity f G0 (rkind_of k) ea' attrs tv pgs p
+                        | None => Ok None
+                        end
+                    end
+  end.
+Proof.
+  unfold load_entity. rewrite fetch_attributes_G0.
+  destruct (sub f (top f) (flat_key k)) as [[ca cn]|]; simpl; [|reflexivity].
+  destruct (sub_uid f ca u) as [[ea en]|]; simpl; reflexivity.
+Qed.
+
+Lemma load_entity_err f u k p e : load_entity G0 f u (Some k) p = Err e -> e <> OutOfFuel.
+Proof.
+  rewrite load_entity_G0. destruct (sub f (top f) (flat_key k)) as [[ca cn]|]; [|intros H; inversion H; discriminate].
+  destruct (sub_uid f ca u) as [[ea en]|]; [|discriminate]. unfold fa_tail. apply create_entity_err.
+Qed.
+
+Lemma fetch_children_G0 f u k :
+  fetch_children G0 f u k =
+  Ok (match sub f (top f) (flat_key k) with
+      | None => []
+      | Some (ca, _) => match sub_uid f ca u with
+                        | None => []
+                        | Some (_, en) => flat_map (kids_of_container f) (n_links en)
+                        end
+      end).
+Proof.
+  unfold fetch_children. simpl. rewrite glookup_ok_absorb by reflexivity. simpl.
+  destruct (sub f (top f) (flat_key k)) as [[ca cn]|]; [|reflexivity].
+  rewrite glookup_ok_absorb by reflexivity. simpl. destruct (sub_uid f ca u) as [[ea en]|]; reflexivity.
+Qed.
+Lemma fetch_children_fresh f a k : fetch_children G0 f (Fresh a) k = Ok [].
+Proof. rewrite fetch_children_G0. destruct (sub f (top f) (flat_key k)) as [[ca cn]|]; reflexivity. Qed.
